@@ -203,6 +203,13 @@ class World(object):
         self.clk = [BASE_MS]
         self.tree = fakezk.Tree(lambda: self.clk[0])
         self.zk = fakezk.Client(self.tree)
+        # the session of whoever changes ZooKeeper while the agent runs (the
+        # scheduler); the agent's own client is self.zk
+        self.sched = fakezk.Client(self.tree)
+        self.watching = False       # a run() has installed its placement watch
+        self.incomplete_sync = False    # some sync could not cache a listed
+        self.event_no = 0               # instance (no manifest / no record)
+        self.last_event = None
         self.zk.ensure_path(z.path.placement(self.host))
         self.zk.ensure_path(z.path.scheduled())
 
@@ -283,6 +290,126 @@ class World(object):
 
     def close(self):
         shutil.rmtree(self.root, ignore_errors=True)
+
+    # -- ZooKeeper changing under the running agent ---------------------------
+    def rebase(self):
+        """What is in the cache now becomes the prior content (the complete
+        'old' files of the next synchronisation)."""
+        self.prior = {}
+        self.prior_stat = {}
+        for name in self.visible():
+            path = os.path.join(self.cache, name)
+            fstat = os.stat(path)
+            self.prior[name] = self.read(name)
+            self.prior_stat[name] = (fstat.st_ino, fstat.st_ctime_ns,
+                                     fstat.st_mtime_ns)
+        self._accepted = {}
+        self.intended = {}
+
+    def uncachable(self):
+        """Listed instances the next synchronisation cannot cache (manifest
+        or placement record missing) and that have no file yet."""
+        return [name for name in self.expected
+                if self.new.get(name) is None and name not in self.prior]
+
+    def apply_mut(self, mut):
+        """One ZooKeeper mutation by the scheduler session; a no-op when it
+        does not apply to the current tree (keeps every case executable).
+        Returns True iff the children of /placement/<host> changed."""
+        do, name = mut['do'], mut['name']
+        ppath = z.path.placement(self.host, name)
+        spath = z.path.scheduled(name)
+        nodes = self.tree.nodes
+        changed = False
+        if do == 'schedule':
+            if spath not in nodes:
+                self.clk[0] = BASE_MS - 86400000 + 60000 * self.event_no
+                zkutils.put(self.sched, spath, mut['manifest'])
+        elif do == 'unschedule':
+            if spath in nodes:
+                self.sched.delete(spath)
+        elif do == 'place':
+            if ppath not in nodes and z.path.placement(self.host) in nodes:
+                self.clk[0] = BASE_MS + 60000 * self.event_no
+                zkutils.put(self.sched, ppath, mut.get('pdata'))
+                self.insts[name] = {'name': name, 'role': 'event',
+                                    'placed': True, 'pnode': True}
+                changed = True
+        elif do == 'unplace':
+            if ppath in nodes:
+                self.sched.delete(ppath)
+                changed = True
+        else:
+            raise AssertionError('unknown mutation %r' % (do,))
+
+        placed = ppath in nodes
+        if placed and name not in self.expected:
+            self.expected.append(name)
+        elif not placed and name in self.expected:
+            self.expected.remove(name)
+        if placed:
+            self.new[name] = None
+            if spath in nodes:
+                self.new[name] = merged(
+                    name, stored_json(self.tree, spath),
+                    stored_json(self.tree, ppath))
+        else:
+            # keep what a file of `name` written earlier holds: it may stay
+            # visible until the synchronisation removes it
+            self.new.setdefault(name, None)
+        self.insts.setdefault(name, {'name': name, 'role': 'event',
+                                     'placed': placed})
+        return changed
+
+    def begin_event(self, step):
+        """Apply the mutations of one history step with the watch events
+        queued (ZooKeeper watches are one-shot: several mutations before the
+        agent's handler thread runs give one notification)."""
+        self.event_no += 1
+        self.rebase()
+        before = set(self.expected)
+        self.tree.queue_watches = True
+        changed = False
+        for mut in step['muts']:
+            if self.apply_mut(mut):
+                changed = True
+        self.allowed = set(self.prior) | before | set(self.expected)
+        self.last_event = {
+            'no': self.event_no, 'children_changed': changed,
+            'added': sorted(set(self.expected) - before),
+            'removed': sorted(before - set(self.expected)),
+            'raced': None, 'after_incomplete': self.incomplete_sync,
+            'uncachable': self.uncachable(), 'fs_points': 0,
+        }
+
+    def deliver_event(self, step):
+        """Deliver the queued watch events to whatever watches the agent has
+        installed. step['race']: while the agent handles the notification -
+        at its first read of a placement record, i.e. after it listed the
+        children - the scheduler removes the placement record of that
+        instance; the notification of that removal is queued behind the
+        running callback, as kazoo's handler thread would."""
+        race = step.get('race')
+        proot = z.path.placement(self.host) + '/'
+        event = self.last_event
+
+        def hook(opname, path):
+            if opname == 'get' and path.startswith(proot) and \
+                    event['raced'] is None:
+                event['raced'] = race
+                if self.apply_mut({'do': 'unplace', 'name': race}):
+                    event['children_changed'] = True
+                    event['removed'] = sorted(set(event['removed']) | {race})
+
+        if race is not None:
+            self.zk.op_hook = hook
+        try:
+            self.tree.deliver_all()
+        finally:
+            self.zk.op_hook = None
+            self.tree.queue_watches = False
+        if event['raced'] is None:
+            event['raced'] = False
 
     # -- observation ---------------------------------------------------------
     def visible(self):
@@ -641,10 +768,22 @@ def run_once(world):
 def agent_step(world, step, ctl, raisable=False):
     """One thing the node agent does, with every fs operation observed."""
     # pylint: disable=protected-access
+    if isinstance(step, dict):
+        # the scheduler's side of a history step (the harness reads the
+        # directory here, so outside the audit watch)
+        world.begin_event(step)
     try:
         with AuditWatch(world, ctl, raisable) as watch:
-            if step == 'run_once':
+            if isinstance(step, dict):
+                before = len(ctl.points)
+                try:
+                    world.deliver_event(step)
+                finally:
+                    world.last_event['fs_points'] = len(ctl.points) - before
+            elif step == 'run_once':
                 run_once(world)
+                if z.path.placement(world.host) in world.tree.nodes:
+                    world.watching = True
             elif step == 'notify_ready':
                 world.evmgr._cache_notify(True)
             elif step == 'notify_stale':
